@@ -660,14 +660,30 @@ func aggEngine(args []string, in *bufio.Scanner, out *bufio.Writer) {
 				if err != nil {
 					return "err:" + err.Error()
 				}
+				a.cli.mu.Lock()
+				a.cli.bcast = nil
+				a.cli.mu.Unlock()
+				if last.Round > cur {
+					// the head is ahead of the tick's round: nothing may be signed, queued or broadcast
+					if err := a.h.VerifBroadcastNextPartial(a.ctx, cur); err != nil {
+						return "err:" + err.Error()
+					}
+					res := a.finish("ok", "none")
+					emitted := 0
+					deadline := time.Now().Add(30 * time.Millisecond)
+					for time.Now().Before(deadline) && emitted == 0 {
+						a.cli.mu.Lock()
+						emitted = len(a.cli.bcast)
+						a.cli.mu.Unlock()
+						time.Sleep(500 * time.Microsecond)
+					}
+					return res + " emitted=" + bit(emitted > 0)
+				}
 				round, prev := last.Round+1, []byte(last.Signature)
 				if cur == last.Round {
 					round, prev = cur, last.PreviousSig
 				}
 				psig, _ := a.sch.ThresholdScheme.Sign(a.groups[a.live].shares[a.h.VerifOwnIndex()], a.digest(round, prev))
-				a.cli.mu.Lock()
-				a.cli.bcast = nil
-				a.cli.mu.Unlock()
 				if err := a.h.VerifBroadcastNextPartial(a.ctx, cur); err != nil {
 					return "err:" + err.Error()
 				}
